@@ -34,7 +34,8 @@ SIDE_CONDITIONS = ["attrsDefined Generated.cliAttrReads Generated.cliSubcommands
 
 DOC = {"a": [1, 2, {"b": "é"}], "k": "x\\u00e9", "s%20t": 1, "n": None}
 PATH_INPUTS = [("", "ok"), ("$.a[*]", "ok"), ("$..b", "ok"), ("$[?length(@) > 1]", "ok"), ("$[?length(@.*)]", "type"), ("$[", "syntax"), ("$[?nosuch(@)]", "name"),
-               ("$[9007199254740992]", "index"), ("$[?@.k == 'x\\u00e9']", "ok"), ("$.a[*] | $.k", "ok"), ("$[?@ == 1e400]", "syntax")]
+               ("$[9007199254740992]", "index"), ("$[?@.k == 'x\\u00e9']", "ok"), ("$.a[*] | $.k", "ok"), ("$[?@ == 1e400]", "syntax"),
+               ("$.a\n  [*]\n", "ok"), ("$[\n  ?length(@) > 1\n  && @[0] == 1\n]", "ok"), ("$.a\n[", "syntax"), ("\n$.k", "ok")]
 PTR_INPUTS = [("/a/0", "ok"), ("/a/2/b", "ok"), ("", "ok"), ("/nope", "resolution"), ("/a/9", "resolution"), ("a", "pointer"), ("/s%20t", "ok"), ("/k", "ok"), ("/a\\", "pointer")]
 PATCH_INPUTS = [([{"op": "add", "path": "/z", "value": 1}], "ok"), ([{"op": "remove", "path": "/a/0"}, {"op": "copy", "from": "/a", "path": "/c"}], "ok"), ([], "ok"),
                 ([{"op": "remove", "path": "/nope"}], "patch"), ([{"op": "test", "path": "/a", "value": 1}], "patch"), ([{"op": "nosuch"}], "patch"), ({"op": "add"}, "notlist"),
